@@ -41,7 +41,7 @@ def run(chk):
         if not resolved:
             rule_unique(chk, fft)
             rule_arity(chk, fft)
-        rule_sym(chk, fft)
+            rule_sym(chk, fft)
     try:
         rule_resolution_types(chk)
     except I.Unknown as e:
